@@ -1688,6 +1688,7 @@ def loop_stream(sym, lv):
     nxt = None
     cap = None
     cap_seen = []
+    cap_pre = []
     for p in sym.paths:
         if head not in p.blocks:
             continue
@@ -1713,21 +1714,33 @@ def loop_stream(sym, lv):
             raise Lost('the collection is changed more than once per iteration')
         pb = order.get(pushes[0][3], 10 ** 9) if pushes else 10 ** 9
         lits = []
+        skip_row = False
         for c in inloop:
             if c is nexts[0]:
                 continue
             l2 = literal(c)
+            lens = [x for x in (find_calls(l2[1], '::len') + (find_calls(l2[2], '::len') if isinstance(l2[2], tuple) else [])) if x[1].split('::')[-1] == 'len'] if l2[0] in ('eq', 'lt') else []
+            if lens:
+                len_first = bool(find_calls(l2[1], '::len'))
+                other = l2[2] if len_first else l2[1]
+                # "full" on this path?  eq(len, N) true / lt(len, N) false / lt(N, len) true
+                full = (l2[3] is True) if l2[0] == 'eq' else ((l2[3] is False) if len_first else (l2[3] is True))
+                continuing = p.end == 'loop' and all(bb in comp for bb in p.blocks[order.get(c[2], 0):])
             if order.get(c[2], 0) > pb:
                 # tested after the push: may only be the capacity test `v.len() == N` that ends the loop
-                if l2[0] in ('eq', 'lt') and any(x[1].split('::')[-1] == 'len' for x in find_calls(l2[1], '::len') + (find_calls(l2[2], '::len') if isinstance(l2[2], tuple) else [])):
-                    len_first = bool(find_calls(l2[1], '::len'))
-                    other = l2[2] if len_first else l2[1]
-                    # "full" on this path?  eq(len, N) true / lt(len, N) false / lt(N, len) true
-                    full = (l2[3] is True) if l2[0] == 'eq' else ((l2[3] is False) if len_first else (l2[3] is True))
-                    cap_seen.append((other, full, p.end == 'loop' and all(bb in comp for bb in p.blocks[order.get(c[2], 0):])))
+                if lens:
+                    cap_seen.append((other, full, continuing))
                     continue
                 raise Lost('the iteration branches after the push')
+            if lens and root_of(strip_transparent(lens[0][2][0])) == lv:
+                # the same capacity test placed before the element is looked at: `if v.len() == N { break }`
+                cap_pre.append((other, full, continuing))
+                if full:
+                    skip_row = True
+                continue
             lits.append(c)
+        if skip_row:
+            continue
         p.loop_elem = ('field', ('downcast', call, 'Some'), '0')
         rows.append((lits, strip_transparent(pushes[0][2][1]) if pushes else None, p))
     if src is None or not rows:
@@ -1736,6 +1749,11 @@ def loop_stream(sym, lv):
     if cap_seen and all((not full) == continuing for _, full, continuing in cap_seen) and len({fmt(o) for o, _, _ in cap_seen}) == 1 \
             and sum(1 for r in rows if r[1] is not None) == len(cap_seen):
         cap = cap_seen[0][0]
+    elif cap_pre and not cap_seen and all((not full) == continuing for _, full, continuing in cap_pre) and len({fmt(o) for o, _, _ in cap_pre}) == 1 \
+            and sum(1 for _, full, _ in cap_pre if not full) == len(rows) and any(full for _, full, _ in cap_pre):
+        cap = cap_pre[0][0]
+    elif cap_pre:
+        raise Lost('a capacity test that does not simply end the loop')
     elem = ('field', ('downcast', nxt, 'Some'), '0')
     site = nxt[3]
 
